@@ -52,6 +52,8 @@ def check(ctx):
     # what both byte-level decoders look at is the parsed item itself: nothing strips or adds a tag before the tag check /
     # before the untagged decoders (which reject tags, R-3) see it
     c13.check_read_to_value(sub, "R-2")
+    from rules import extractors as _ex
+    _ex.check_extractors(ctx.under("R-2", "extractors"), "R-2", only={"try_as_tag", "try_as_array"})     # the tag handed to the comparison is the item's own
     c13._check_from_tagged(sub, prog.fn(TSER + "::from_tagged_slice"))
     c13._check_to_vec(sub, prog.fn(TSER + "::to_tagged_vec"), tagged=True)
 
